@@ -63,8 +63,10 @@ func (n *Node) isLastOfHierarchy() bool {
 		return false
 	}
 
+	// identity, not index: indexes of programmatically built nodes repeat after the
+	// package-level counter is reset by any From-Root call
 	lastIdx := len(n.parent.children) - 1
-	return n.index == n.parent.children[lastIdx].index
+	return n == n.parent.children[lastIdx]
 }
 
 const (
